@@ -100,6 +100,9 @@ class SyncWorker(base.Worker):
                         continue
 
                     try:
+                        # the wait may have used up most of the heartbeat
+                        # interval: do not start a request on an old heartbeat
+                        self.notify()
                         self.accept(listener)
                     except OSError as e:
                         if e.errno not in (errno.EAGAIN, errno.ECONNABORTED,
